@@ -265,6 +265,7 @@ def aggregate(pid, p, tier, seed, legs_results, t0, builds_used, extra=None):
     notes = []
     incon = []
     violations = []  # (sig, count, what, replay)
+    foreign = {}
     for lr in legs_results:
         incon += lr.inconclusive
         for rep in lr.reports:
@@ -281,6 +282,11 @@ def aggregate(pid, p, tier, seed, legs_results, t0, builds_used, extra=None):
                     notes.append(n_)
             incon += [f"{lr.name}: {x}" for x in rep.get("inconclusive", [])]
             for v in rep.get("violations", []):
+                m = re.match(r"^(C\d\d)\|", v["sig"])
+                if m and m.group(1) != pid:
+                    # observed by a shared leg on behalf of another property: reported by that property's check
+                    foreign[v["sig"]] = foreign.get(v["sig"], 0) + v["count"]
+                    continue
                 violations.append((v["sig"], v["count"], v["what"],
                                    {"leg": lr.name, "build": rep.get("_build"), "cmd": rep.get("_cmd"), "case": v.get("replay")}))
         for c in lr.extra_violations:
@@ -329,6 +335,7 @@ def aggregate(pid, p, tier, seed, legs_results, t0, builds_used, extra=None):
             "known_findings_matched": [{"signature": s, "count": c, "what": w} for s, (c, w) in matched.items()],
             "unlisted_violations": [{"signature": s, "count": c, "what": w, "replay": pth} for s, c, w, pth in unlisted],
             "inconclusive": incon,
+            "observed_for_other_properties": foreign,
             "technique": p["technique"],
         },
         "assumptions": p.get("assumptions", []),
